@@ -604,8 +604,19 @@ func mCheckMerge(files []*mFile, schema string) (*openfgav1.AuthorizationModel, 
 		for _, e := range me.Errors {
 			se, isMerge := e.(*ModuleTransformationSingleError)
 			if !isMerge {
-				_, isSyntax := e.(*OpenFgaDslSyntaxError)
+				sy, isSyntax := e.(*OpenFgaDslSyntaxError)
 				zzverif.Assert(isSyntax, "error-item-type")
+				if isSyntax {
+					// a syntax error of a module file names that file as well (one of the files that do not parse)
+					named := false
+					for _, c := range conflicts {
+						if (c.kind == "syntax" || c.kind == "not-a-module") && c.file == mSyntaxErrorFile(sy) {
+							named = true
+						}
+					}
+					zzverif.Class("conflict-error-names-the-offending-file", "syntax error of a module file")
+					zzverif.Assert(named, "conflict-error-names-the-offending-file")
+				}
 				continue
 			}
 			if se.Msg == "file is not a module" {
@@ -822,4 +833,11 @@ func mModelSet(m *openfgav1.AuthorizationModel) string {
 	}
 	mSortStrings(parts)
 	return strings.Join(parts, ";") + "|" + mCondText(m)
+}
+
+
+// mSyntaxErrorFile: the file a syntax error names (field File, added by the repair of this defect; before, the
+// error type had no way to say so and this function returned "").
+func mSyntaxErrorFile(e *OpenFgaDslSyntaxError) string {
+	return e.File
 }
